@@ -68,16 +68,33 @@ fn default_strategy() -> String {
 
 const KEYS: [&str; 3] = ["ka", "kb", "n"];
 
+/// one value in five is not a plain word: blanks, tabs or a carriage return at its end, a blank in front, several
+/// words -- the replicas must hold the very bytes the primary holds
+fn odd_value(rng: &mut Rng, base: String) -> String {
+    if !rng.chance(1, 5) {
+        return base;
+    }
+    match rng.below(7) {
+        0 => format!("{}  ", base),
+        1 => format!("{}\t", base),
+        2 => format!("{}\r", base),
+        3 => format!(" {}", base),
+        4 => format!("{} and  more words ", base),
+        5 => format!("7 {}", base),
+        _ => format!("<Empty> {}", base),
+    }
+}
+
 fn gen_op(rng: &mut Rng, uniq: &mut u32, allow_setsafe: bool) -> Op {
     let key = KEYS[rng.below(3) as usize].to_string();
     *uniq += 1;
     match rng.below(16) {
-        0..=4 => Op::Set { key, val: if rng.chance(1, 4) { format!("{}", rng.range(0, 30)) } else { format!("v{}", uniq) } },
+        0..=4 => Op::Set { key, val: if rng.chance(1, 4) { format!("{}", rng.range(0, 30)) } else { odd_value(rng, format!("v{}", uniq)) } },
         5 | 6 => {
             if allow_setsafe {
-                Op::SetSafe { key, delta: rng.range(0, 2) as i32 - 1, val: format!("s{}", uniq) }
+                Op::SetSafe { key, delta: rng.range(0, 2) as i32 - 1, val: odd_value(rng, format!("s{}", uniq)) }
             } else {
-                Op::Set { key, val: format!("v{}", uniq) }
+                Op::Set { key, val: odd_value(rng, format!("v{}", uniq)) }
             }
         }
         7 | 8 => Op::Remove { key },
